@@ -24,7 +24,8 @@ TECHNIQUE = ("bounded symbolic execution of the real cdp_rho / cdp_eps (cdp_delt
              "uninterpreted) with the 1000-step bisections cut to K steps; every comparison forks; obligations are the search invariants and term "
              "equality with the published Renyi-order formula; z3 (EUF + NRA); counterexamples replayed by sweeping the real functions")
 BOUNDS = {"quick": "K in {1,2,3,4} bisection steps (all 2^K paths), symbolic rho, eps, delta",
-          "thorough": "K up to 7"}
+          "thorough": "K up to 7",
+          "inductive": "both tiers: base / step / epilogue cut of each search loop from an arbitrary bracket satisfying the invariant: any number of iterations"}
 OUTSIDE = ("that the Renyi bound dominates the exact Gaussian delta (a theorem about distributions); monotonicity in each argument and 'mutually inverse "
            "within numerical tolerance' (properties of a 10^6-evaluation float computation of a transcendental function); iterations beyond K (each "
            "iteration runs the same code; the invariant argument is inductive but the induction is not mechanised)")
@@ -131,6 +132,8 @@ def configs(tier, seed):
     for k in ks:
         for part in ("rho", "eps", "delta"):
             cfgs.append(dict(name="%s:K%d" % (part, k), part=part, K=k, cost=2 ** k, core=k <= 5))
+    for part in ("rho", "eps", "delta"):
+        cfgs.append(dict(name="%s:inductive" % part, part=part, K=1, mode="ind", cost=6, core=True))
     return cfgs
 
 
@@ -139,6 +142,8 @@ def run_config(cfg):
     mod = load()
     res.functions = shims.fn_fingerprint(mod.cdp_rho, mod.cdp_eps, _MOD["real_delta"])
     _CUT["k"] = cfg["K"]
+    if cfg.get("mode") == "ind":
+        return run_inductive(cfg, res, mod)
     part = cfg["part"]
     ex = solve.Explorer(max_paths=2 ** (cfg["K"] + 2) + 4, max_decisions=cfg["K"] + 6, branch_timeout_ms=3000)
 
@@ -268,6 +273,266 @@ def run_config(cfg):
         if kind != "ok":
             res.unknown.append({"what": "path %s: %s" % (kind, out)})
     # fidelity: the real functions against themselves with the cut (float run of the same cut program is not meaningful: 1000 vs K steps)
+    return res
+
+
+# ----------------------------------------------------------------------------------------
+# inductive mode: the loop of each search is cut out of the function's AST (from /repo's current source, every run) and checked as
+#   base      prologue (real code)                     establishes  Inv
+#   step      havoc state, assume Inv, loop body (real code)   re-establishes Inv, halves the bracket
+#   epilogue  havoc state, assume Inv, code after the loop (real code)   returns a value with the stated post-condition
+# which together cover ANY number of iterations (in particular the 1000 the code runs), not only K.
+# ----------------------------------------------------------------------------------------
+import ast
+import textwrap
+
+
+def split_loop(mod, fname):
+    tree = ast.parse(open(mod.__file__).read())
+    fns = [n for n in tree.body if isinstance(n, ast.FunctionDef) and n.name == fname]
+    if len(fns) != 1:
+        raise core.SymError("function %s not found exactly once in %s" % (fname, mod.__file__))
+    fn = fns[0]
+    idx = [i for i, st in enumerate(fn.body) if isinstance(st, (ast.For, ast.While))]
+    if len(idx) != 1 or not isinstance(fn.body[idx[0]], ast.For) or fn.body[idx[0]].orelse:
+        raise core.SymError("%s: expected exactly one top-level for-loop" % fname)
+    i = idx[0]
+    loop = fn.body[i]
+    it = loop.iter
+    if not (isinstance(it, ast.Call) and isinstance(it.func, ast.Name) and it.func.id == "range" and len(it.args) == 1
+            and isinstance(it.args[0], ast.Constant) and isinstance(it.args[0].value, int)):
+        raise core.SymError("%s: loop is not `for _ in range(<int>)`" % fname)
+    for n in ast.walk(ast.Module(body=loop.body, type_ignores=[])):
+        if isinstance(n, (ast.Break, ast.Continue, ast.Return)):
+            raise core.SymError("%s: loop body leaves the loop early; the inductive cut does not model that" % fname)
+        if isinstance(n, ast.Name) and isinstance(loop.target, ast.Name) and n.id == loop.target.id:
+            raise core.SymError("%s: loop body uses the loop counter" % fname)
+    params = [a.arg for a in fn.args.args]
+
+    def stored(stmts):
+        out = []
+        for n in ast.walk(ast.Module(body=stmts, type_ignores=[])):
+            if isinstance(n, ast.Name) and isinstance(n.ctx, ast.Store) and n.id not in out:
+                out.append(n.id)
+        return out
+    return dict(params=params, pro=fn.body[:i], body=loop.body, epi=fn.body[i + 1:], n_iter=it.args[0].value,
+                pro_vars=stored(fn.body[:i]), loop_vars=stored(loop.body))
+
+
+def _compile(mod, name, header_names, stmts, ret_locals):
+    src = "def %s(__s):\n" % name
+    for k in header_names:
+        src += "    if %r in __s: %s = __s[%r]\n" % (k, k, k)
+    body = "\n".join(ast.unparse(st) for st in stmts) if stmts else "pass"
+    src += textwrap.indent(body, "    ") + "\n"
+    if ret_locals:
+        src += "    __r = dict(locals()); __r.pop('__s', None); return __r\n"
+    ns = {}
+    exec(compile(src, "<%s of %s>" % (name, mod.__file__), "exec"), mod.__dict__, ns)   # module globals: the shadowed math / cdp_delta apply
+    return ns[name], src
+
+
+def tt(b):
+    return b.t if isinstance(b, core.SB) else z3.BoolVal(bool(b))
+
+
+def _lift(x):
+    return x if isinstance(x, SR) else SR.lift(x)
+
+
+def run_inductive(cfg, res, mod):
+    part = cfg["part"]
+    fname = {"rho": "cdp_rho", "eps": "cdp_eps", "delta": "cdp_delta"}[part]
+    sp = split_loop(mod, fname)
+    names = sp["params"] + [v for v in sp["pro_vars"] if v not in sp["params"]] + [v for v in sp["loop_vars"] if v not in sp["params"] + sp["pro_vars"]]
+    f_pre, src_pre = _compile(mod, "__pre", sp["params"], sp["pro"], True)
+    f_step, src_step = _compile(mod, "__step", names, sp["body"], True)
+    f_post, src_post = _compile(mod, "__post", names, sp["epi"], False)
+    res.notes.append("inductive cut of %s: loop runs %d times in the real code; prologue %d stmts, body %d stmts, epilogue %d stmts; loop-carried: %s"
+                     % (fname, sp["n_iter"], len(sp["pro"]), len(sp["body"]), len(sp["epi"]), sp["loop_vars"]))
+    need = {"rho": ("rhomin", "rhomax"), "eps": ("epsmin", "epsmax"), "delta": ("amin", "amax", "alpha")}[part]
+    for v in need:
+        if v not in names:
+            raise core.SymError("%s: bracket variable %s not found (invariant is stated over it)" % (fname, v))
+
+    def cand(model, phase):
+        return {"kind": "model", "env": solve.model_env(model) if model is not None else {}, "phase": phase}
+
+    def ob(goal, what, phase):
+        v, mo, _ = solve.prove(goal)
+        res.ob(v, "%s [%s]: %s" % (fname, phase, what), cand(mo, phase))
+
+    def params_sym():
+        ST.__dict__["fatoms"] = {}
+        ST.__dict__["uatoms"] = {}
+        if part == "rho":
+            eps, delta = SR.var("eps", "p"), SR.var("delta", "p")
+            ST.assume(delta.term() < 1)
+            return dict(eps=eps, delta=delta)
+        if part == "eps":
+            rho, delta = SR.var("rho", "p"), SR.var("delta", "p")
+            ST.assume(delta.term() < 1)
+            return dict(rho=rho, delta=delta)
+        return dict(rho=SR.var("rho", "p"), eps=SR.var("eps", "p"))
+
+    # the F-facts of the invariant, as z3 formulas over the current atom registry
+    def F_le(r, e, d):
+        f = F_stub(r, e)
+        return tt(_lift(f) <= d) if isinstance(f, Sym) else z3.BoolVal(f <= 0 or True)
+
+    def inv_rho(st, P, must_exist):
+        lo, hi = _lift(st["rhomin"]), _lift(st["rhomax"])
+        if must_exist:
+            f_lo, f_hi = F_of(lo, P["eps"]), F_of(hi, P["eps"])
+            c_lo = z3.Or(tt(lo == 0), tt(f_lo <= P["delta"])) if f_lo is not None else tt(lo == 0)
+            c_hi = z3.Or(tt(hi == P["eps"] + 1), tt(f_hi > P["delta"])) if f_hi is not None else tt(hi == P["eps"] + 1)
+        else:
+            c_lo = z3.Or(tt(lo == 0), tt(F_stub(lo, P["eps"]) <= P["delta"]))
+            c_hi = z3.Or(tt(hi == P["eps"] + 1), tt(F_stub(hi, P["eps"]) > P["delta"]))
+        return [("0 <= rhomin <= rhomax <= eps+1", z3.And(tt(lo >= 0), tt(lo <= hi), tt(hi <= P["eps"] + 1))),
+                ("rhomin == 0 or cdp_delta(rhomin, eps) <= delta", c_lo),
+                ("rhomax is the initial bracket or cdp_delta(rhomax, eps) > delta", c_hi)]
+
+    def inv_eps(st, P, must_exist):
+        lo, hi = _lift(st["epsmin"]), _lift(st["epsmax"])
+        init = P["rho"] + 2 * MATH.sqrt(P["rho"] * MATH.log(1 / P["delta"]))
+        if must_exist:
+            f_lo, f_hi = F_of(P["rho"], lo), F_of(P["rho"], hi)
+            c_hi = z3.Or(tt(hi == init), tt(f_hi <= P["delta"])) if f_hi is not None else tt(hi == init)
+            c_lo = z3.Or(tt(lo == 0), tt(f_lo > P["delta"])) if f_lo is not None else tt(lo == 0)
+        else:
+            c_hi = z3.Or(tt(hi == init), tt(F_stub(P["rho"], hi) <= P["delta"]))
+            c_lo = z3.Or(tt(lo == 0), tt(F_stub(P["rho"], lo) > P["delta"]))
+        return [("0 <= epsmin <= epsmax", z3.And(tt(lo >= 0), tt(lo <= hi))),
+                ("epsmax is the analytic bound or cdp_delta(rho, epsmax) <= delta", c_hi),
+                ("epsmin == 0 or cdp_delta(rho, epsmin) > delta", c_lo)]
+
+    def inv_delta(st, P, must_exist):
+        lo, hi = _lift(st["amin"]), _lift(st["amax"])
+        top = (P["eps"] + 1) / (2 * P["rho"]) + 2
+        out = [("1.01 <= amin <= amax <= (eps+1)/(2 rho)+2", z3.And(tt(lo >= 1.01), tt(lo <= hi), tt(hi <= top)))]
+        if "alpha" in st:
+            a = _lift(st["alpha"])
+            out.append(("amin <= alpha <= amax", z3.And(tt(lo <= a), tt(a <= hi))))
+        return out
+    INV = {"rho": inv_rho, "eps": inv_eps, "delta": inv_delta}[part]
+    LO, HI = need[0], need[1]
+
+    def havoc(P, with_loop_vars):
+        st = dict(P)
+        st[LO] = SR.var(LO + "_h")
+        st[HI] = SR.var(HI + "_h")
+        if part == "delta" and with_loop_vars:
+            st["alpha"] = SR.var("alpha_h")
+        for what, g in INV(st, P, False):
+            ST.assume(g)
+        return st
+
+    def set_delta_stub():
+        mod.__dict__["cdp_delta"] = F_stub if part in ("rho", "eps") else _MOD["real_delta"]
+
+    # ---- base ----
+    ex = solve.Explorer(max_paths=16, max_decisions=8, branch_timeout_ms=3000)
+
+    def base():
+        set_delta_stub()
+        try:
+            P = params_sym()
+            st = f_pre(dict(P))
+            for v in need[:2]:
+                if v not in st:
+                    res.ob("sat", "%s [base]: prologue does not define %s" % (fname, v), cand(None, "base"))
+                    return 1
+            for what, g in INV(st, P, True):
+                ob(g, "prologue establishes: " + what, "base")
+        finally:
+            mod.__dict__["cdp_delta"] = _MOD["real_delta"]
+        return 1
+
+    # ---- step ----
+    def step():
+        set_delta_stub()
+        try:
+            P = params_sym()
+            st = havoc(P, False)
+            lo0, hi0 = st[LO], st[HI]
+            n0 = len(ex.taken)
+            new = f_step(dict(st))
+            for what, g in INV(new, P, True):
+                ob(g, "loop body preserves: " + what, "step")
+            w0, w1 = hi0 - lo0, _lift(new[HI]) - _lift(new[LO])
+            v, mo, _ = solve.prove_eq(w1 * 2, w0)
+            res.ob(v, "%s [step]: the bracket halves" % fname, cand(mo, "step"))
+            mid = (lo0 + hi0) / 2
+            moved_lo = z3.And(tt(_lift(new[LO]) == mid), tt(_lift(new[HI]) == hi0))
+            moved_hi = z3.And(tt(_lift(new[HI]) == mid), tt(_lift(new[LO]) == lo0))
+            ob(z3.Or(moved_lo, moved_hi), "exactly one end of the bracket moves to the midpoint", "step")
+            if part == "delta":
+                # the branch that was taken is the sign test of the published derivative at the midpoint
+                deriv = (2 * mid - 1) * P["rho"] - P["eps"] + MATH.log1p(-1.0 / mid)
+                neg = tt(deriv < 0)
+                ob(z3.And(z3.Implies(neg, moved_lo), z3.Implies(z3.Not(neg), moved_hi)),
+                   "amin moves up exactly when the published derivative is negative at the midpoint", "step")
+                v, mo, _ = solve.prove_eq(_lift(new["alpha"]), mid)
+                res.ob(v, "%s [step]: alpha is the midpoint" % fname, cand(mo, "step"))
+            if len(res.samples) < 2:
+                res.samples.append({"phase": "step", "path": [str(c)[:100] for c in ST.pathcond][:3]})
+        finally:
+            mod.__dict__["cdp_delta"] = _MOD["real_delta"]
+        return 1
+
+    # ---- epilogue ----
+    def epilogue():
+        set_delta_stub()
+        try:
+            P = params_sym()
+            st = havoc(P, True)
+            r = f_post(dict(st))
+            if part == "rho":
+                if not isinstance(r, Sym):
+                    res.ob("unsat" if r == 0 else "sat", "%s [epilogue]: constant result must be 0" % fname, cand(None, "epilogue"))
+                    return 1
+                f = F_of(r, P["eps"])
+                g = z3.Or(tt(r == 0), tt(f <= P["delta"])) if f is not None else tt(r == 0)
+                ob(g, "returned budget r: r == 0 or cdp_delta(r, eps) <= delta", "epilogue")
+                ob(z3.And(tt(r >= 0), tt(r <= P["eps"] + 1)), "result within the initial bracket", "epilogue")
+                v, mo, _ = solve.prove_eq(r, st["rhomin"])
+                res.ob(v, "%s [epilogue]: returns the sound end of the bracket (rhomin)" % fname, cand(mo, "epilogue"))
+            elif part == "eps":
+                if not isinstance(r, Sym):
+                    res.ob("sat", "%s [epilogue]: constant result for rho > 0, delta < 1" % fname, cand(None, "epilogue"))
+                    return 1
+                init = P["rho"] + 2 * MATH.sqrt(P["rho"] * MATH.log(1 / P["delta"]))
+                f = F_of(P["rho"], r)
+                g = z3.Or(tt(r == init), tt(f <= P["delta"])) if f is not None else tt(r == init)
+                ob(g, "returned eps e: cdp_delta(rho, e) <= delta or e is the analytic bound", "epilogue")
+                v, mo, _ = solve.prove_eq(r, st["epsmax"])
+                res.ob(v, "%s [epilogue]: returns the sound end of the bracket (epsmax)" % fname, cand(mo, "epilogue"))
+            else:
+                alpha = st["alpha"]
+                ref = MATH.exp((alpha - 1) * (alpha * P["rho"] - P["eps"]) + alpha * MATH.log1p(-1 / alpha)) / (alpha - 1.0)
+                taken = list(ex.taken)
+                capped = taken[-1] if taken else False
+                v, mo, _ = (solve.prove_eq(r, 1.0) if capped else solve.prove_eq(r, ref))
+                res.ob(v, "%s [epilogue]: returned value is min(1, published bound at the searched order)" % fname, cand(mo, "epilogue"))
+                if capped:
+                    ob(tt(ref >= 1), "the cap is applied only when the bound exceeds 1", "epilogue")
+                else:
+                    ob(tt(_lift(r) <= 1), "result <= 1", "epilogue")
+                ob(tt(_lift(r) >= 0), "result >= 0", "epilogue")
+        finally:
+            mod.__dict__["cdp_delta"] = _MOD["real_delta"]
+        return 1
+
+    for phase, fn in (("base", base), ("step", step), ("epilogue", epilogue)):
+        ex = solve.Explorer(max_paths=16, max_decisions=8, branch_timeout_ms=3000)
+        outs = ex.run(fn)
+        res.paths += len(outs)
+        if not any(k == "ok" for k, _, _ in outs):
+            res.unknown.append({"what": "%s [%s]: no feasible path (vacuous)" % (fname, phase)})
+        for kind, taken, out in outs:
+            if kind not in ("ok", "infeasible", "pruned"):
+                res.unknown.append({"what": "%s [%s] path %s: %s" % (fname, phase, kind, out)})
     return res
 
 
